@@ -143,8 +143,7 @@ def run_case(desc):
             if mode == "sym":
                 require(model.eq_sym(g * t, mx.get(lab)), "shares", f"share*total != entry at {lab}")
             else:
-                feq = model.make_eq_float(1e-9)
-                require(feq(g * t, mx.get(lab), abs(t)), "shares", f"share*total != entry at {lab}: {g}*{t} vs {mx.get(lab)}")
+                require(abs(g * t - mx.get(lab)) <= 1e-9 * max(abs(t), abs(mx.get(lab))), "shares", f"share*total != entry at {lab}: {g}*{t} vs {mx.get(lab)}")
         sums = got.sum_to(keep)
         for key in sums.keys():
             lab = dict(zip(sums.letters, key))
@@ -197,6 +196,10 @@ def cases(draw, mode, max_dims=4, max_len=3):
             else:
                 dims = dims[:-1]
     naming = [draw(st.sampled_from([0, 1, 2])) for _ in dims] if op in ("sum_to", "sum_over") else [0] * len(dims)
+    if mode == "float" and op == "shares" and draw(st.booleans()):
+        # any unit: totals of 1e-13 are as legitimate as totals of 1e6
+        k = draw(st.sampled_from([1e-15, 1e-13, 1e-9, 1e7]))
+        x = dict(x, vals=[v * k for v in x["vals"]])
     return {"universe": U, "x": x, "op": op, "dims": dims, "naming": naming, "bad": bad}
 
 
